@@ -64,8 +64,9 @@ def build():
             assert(r_before@ =~= crate::openssl::bn::left_pad(sig0.r.be@, n)); //@C15.ecdsa_r_s_left_padded,C04.ecdsa_signature_is_r_s_left_padded
             assert(s_before@ =~= crate::openssl::bn::left_pad(sig0.s.be@, n)); //@C15.ecdsa_r_s_left_padded,C04.ecdsa_signature_is_r_s_left_padded
         }"""),
-         ("before_stmt", "let mut signature = r;", 1, "let ghost r_before = r; let ghost s_before = s; let ghost sig0 = signature;")],
-        rewrites=[("T-ITER", r"s\.resize_with\((?P<n>[^,]*), \|\| 0\);", r"crate::openssl::bn::resize_zero(&mut s, \g<n>);", None)])})
+         ("before_stmt_re", r"let mut \w+ = (\w+);\s*\w+\.append\(&mut (\w+)\);", 1, "let ghost r_before = $1; let ghost s_before = $2; let ghost sig0 = $sig;")],
+        rewrites=[("T-ITER", r"s\.resize_with\((?P<n>[^,]*), \|\| 0\);", r"crate::openssl::bn::resize_zero(&mut s, \g<n>);", None)],
+        names={"sig": r"let (\w+) = EcdsaSig::sign\("})})
     u.verify(K, "KeyPair::get_jwk_public_key", "crypto", props=["C15"], fns={"get_jwk_public_key": FnSpec(ret="r", sig="""
     requires self.wf(),
 """)})
